@@ -20,11 +20,11 @@ package grammar
 
 // the items (r, 0) for exactly the rules r whose left-hand side is the symbol after the dot
 //@ func (*Grammar).getItemCloure
-//@ props C09
+//@ props C09 C01 C02 C06
 //@ results res
 //@ requires wfRules(g) && It != nil && wfItem(g, *It)
-//@ ensures [C09] forall k int :: 0 <= k && k < len(res) ==> res[k] != nil && fresh(res[k]) && res[k].Dot == 0 && needs(g, *It, res[k].RuleIndex)
-//@ ensures [C09] forall r int :: needs(g, *It, r) ==> (exists k int :: 0 <= k && k < len(res) && res[k].RuleIndex == r)
+//@ ensures [C09,C01,C02,C06] forall k int :: 0 <= k && k < len(res) ==> res[k] != nil && fresh(res[k]) && res[k].Dot == 0 && needs(g, *It, res[k].RuleIndex)
+//@ ensures [C09,C01,C02,C06] forall r int :: needs(g, *It, r) ==> (exists k int :: 0 <= k && k < len(res) && res[k].RuleIndex == r)
 //@ modifies nothing
 //@ allocates item.Item
 //@ loop 0: invariant forall k int :: 0 <= k && k < len(items) ==> items[k] != nil && fresh(items[k]) && items[k].Dot == 0 && needs(g, *It, items[k].RuleIndex)
@@ -40,17 +40,46 @@ package grammar
 
 //@ def okItems(g *Grammar, IC *item.ItemCloure) = IC != nil && (forall i int :: 0 <= i && i < len(IC.Items) ==> IC.Items[i] != nil && allocated(IC.Items[i]) && wfItem(g, *IC.Items[i]))
 
+// justIC: every item from position n0 on is a closure item (r, 0) needed by some item of the set - nothing else is ever added
+//@ def justIC(g *Grammar, IC *item.ItemCloure, n0 int) = forall j int :: n0 <= j && j < len(IC.Items) ==>
+//@     IC.Items[j].Dot == 0 && (exists i int :: 0 <= i && i < len(IC.Items) && needs(g, *IC.Items[i], IC.Items[j].RuleIndex))
+
 //@ func (*Grammar).ComputeIClosure
-//@ props C09
-//@ requires wfRules(g) && okItems(g, IC)
-//@ ensures [C09] okItems(g, IC)
-//@ ensures [C09] sortedIC(IC)
+//@ props C09 C01 C02 C06
+//@ requires wfRules(g) && okItems(g, IC) && item.repIC(IC)
+//@ ensures [C09,C01,C02,C06] okItems(g, IC)
+//@ ensures [C09,C01,C02,C06] item.repIC(IC)
+//@ ensures [C09,C01,C02,C06] sortedIC(IC)
+// closed: whenever an item has a nonterminal B after the dot, every (r, 0) with lhs(r) == B is in the set
+//@ ensures [C09,C01,C02,C06] closedIC(g, IC)
+// the items given are kept, and every other item is a justified closure item: the result is the LEAST closed superset
+//@ ensures [C09,C01,C02,C06] forall i int :: 0 <= i && i < old(len(IC.Items)) ==> (exists j int :: 0 <= j && j < len(IC.Items) && IC.Items[j] == old(IC.Items)[i])
+//@ ensures [C09,C01,C02,C06] forall j int :: 0 <= j && j < len(IC.Items) ==> (exists i int :: 0 <= i && i < old(len(IC.Items)) && IC.Items[j] == old(IC.Items)[i]) ||
+//@     (IC.Items[j].Dot == 0 && (exists i int :: 0 <= i && i < len(IC.Items) && needs(g, *IC.Items[i], IC.Items[j].RuleIndex)))
+//@ modifies IC.Items, IC.itemMap
 //@ allocates item.Item
-//@ loop 0: invariant okItems(g, IC)
-//@ loop 1: invariant okItems(g, IC) && IC.Items == before(IC.Items)
+//@ loop 0: invariant okItems(g, IC) && unchanged(item.Item)
+//@ loop 0: invariant item.repIC(IC)
+//@ loop 0: invariant len(IC.Items) >= old(len(IC.Items))
+//@ loop 0: invariant justIC(g, IC, old(len(IC.Items)))
+//@ loop 0: invariant forall i int :: 0 <= i && i < old(len(IC.Items)) ==> IC.Items[i] == old(IC.Items)[i]
+//@ loop 0: after closedIC(g, IC)
+//@ loop 1: invariant okItems(g, IC) && IC.Items == before(IC.Items) && IC.itemMap == before(IC.itemMap) && unchanged(item.Item)
+//@ loop 1: invariant forall p *item.Item :: before(allocated(p)) ==> p.RuleIndex == before(p.RuleIndex) && p.Dot == before(p.Dot)
 //@ loop 1: invariant forall k int :: 0 <= k && k < len(items) ==> items[k] != nil && allocated(items[k]) && items[k].Dot == 0 && 0 <= items[k].RuleIndex && items[k].RuleIndex < len(g.ProductoinRules)
-//@ loop 2: invariant okItems(g, IC)
+//@ loop 1: invariant forall k int :: 0 <= k && k < len(items) ==> (exists i int :: 0 <= i && i < idx1 && needs(g, *IC.Items[i], items[k].RuleIndex))
+//@ loop 1: invariant forall i, r int :: 0 <= i && i < idx1 && needs(g, *IC.Items[i], r) ==> (exists k int :: 0 <= k && k < len(items) && items[k].RuleIndex == r)
+//@ loop 1: end_of_body forall r int :: needs(g, *it, r) ==> (exists k int :: 0 <= k && k < len(items) && items[k].RuleIndex == r)
+//@ loop 1: end_of_body forall k int :: 0 <= k && k < at_head(len(items)) ==> items[k] == at_head(items)[k]
+//@ loop 1: end_of_body forall i, r int :: 0 <= i && i < idx1 && needs(g, *IC.Items[i], r) ==> (exists k int :: 0 <= k && k < len(items) && items[k].RuleIndex == r)
+//@ loop 2: invariant okItems(g, IC) && unchanged(item.Item)
+//@ loop 2: invariant item.repIC(IC)
+//@ loop 2: invariant len(IC.Items) >= before(len(IC.Items))
+//@ loop 2: invariant justIC(g, IC, old(len(IC.Items)))
+//@ loop 2: invariant forall i int :: 0 <= i && i < before(len(IC.Items)) ==> IC.Items[i] == before(IC.Items)[i]
 //@ loop 2: invariant forall k int :: 0 <= k && k < len(items) ==> items[k] != nil && allocated(items[k]) && items[k].Dot == 0 && 0 <= items[k].RuleIndex && items[k].RuleIndex < len(g.ProductoinRules)
+//@ loop 2: invariant items == before(items) && 0 <= change
+//@ loop 2: invariant change == 0 ==> IC.Items == before(IC.Items) && IC.itemMap == before(IC.itemMap) && (forall k int :: 0 <= k && k < idx2 ==> item.inIC(IC, *items[k]))
 
 // ---------------------------------------------------------------------------------------------
 // C12: productive ("can terminate") and nullable nonterminals are least fixpoints over the rules.
